@@ -12,6 +12,7 @@ Verdict(e) ==
   ELSE IF e.crc_appended # <<0, 0, 0, 0>> THEN "residue-nonzero"
   ELSE IF ~e.input_same THEN "input-or-surrounding-bytes-modified"
   ELSE IF ~e.earlier_same THEN "checksum-returned-earlier-changed-by-a-later-call"
+  ELSE IF ~e.par_same THEN "result-differs-when-calls-on-separate-strings-overlap-in-time"
   ELSE ""
 Init == l = 1
 Next == /\ l <= Len(Trace) /\ l' = l + 1
